@@ -50,6 +50,9 @@ var c07FundingMuts = []string{
 var c07SettleMuts = []string{
 	"none", "settle:credit-wrong-party", "settle:keep-suballoc", "settle:remove-other-too", "settle:touch-other-suballoc-id", "settle:touch-other-suballoc-indexmap",
 	"settle:actor-other", "sig:wrong-key",
+	// the settlement credits the sub-channel's balances as they were before its
+	// final update (which moved funds): same totals, other distribution
+	"settle:credit-of-pre-final-state",
 }
 
 // (a sequence, not drawn from the list above: see the step craft-sub-close-retry)
@@ -248,11 +251,12 @@ func execC07(t *testing.T, sc *kernel.Scenario, trace bool) *kernel.Result {
 				if side0 != 0 {
 					continue // only A (node 0) can be edited
 				}
+				preFinal := si.chans[0].State().Clone()
 				o := p.pay(i, si.chans[0], 0, st.Int("amt"), 3*time.Second, true)
 				if o.class != "ok" {
 					continue
 				}
-				st0.arm(&craft{class: "settlement", mut: st.Str("mut"), ch: p.ids[0], subID: si.id, r: kernel.NewRand(kernel.Derive(uint64(st.Int("r")), "craft"))})
+				st0.arm(&craft{class: "settlement", mut: st.Str("mut"), ch: p.ids[0], subID: si.id, alt: preFinal, r: kernel.NewRand(kernel.Derive(uint64(st.Int("r")), "craft"))})
 				errs := make(chan error, 2)
 				for _, side := range []int{0, 1} {
 					side := side
@@ -557,7 +561,7 @@ func (c *c07state) mutate(cr *craft, m *client.ChannelUpdateMsg, before *channel
 				break
 			}
 		}
-	case mutDiscardedFinal:
+	case mutDiscardedFinal, "settle:credit-of-pre-final-state":
 		if cr.alt == nil || len(cr.alt.Balances) != len(s.Balances) {
 			cr.mut = "none"
 			resign = false
